@@ -34,17 +34,25 @@ def _cfg_value(v):
 
 def write_cfg(path, spec=None, init=None, nxt=None, constants=None, invariants=(), properties=(),
               constraints=(), action_constraints=(), postcondition=None, deadlock=True, view=None,
-              symmetry=None):
+              symmetry=None, defs=None):
+    """defs: {CONSTANT: TLA+ expression text}: values the cfg syntax cannot express (tuples, records,
+    functions); a wrapper module MC_<cfg> defining them is written next to the cfg and run_tlc picks it up."""
     L = []
     if spec:
         L.append("SPECIFICATION " + spec)
     else:
         L.append("INIT " + init)
         L.append("NEXT " + nxt)
-    if constants:
+    if constants or defs:
         L.append("CONSTANTS")
-        for k, v in constants.items():
+        for k, v in (constants or {}).items():
             L.append("  %s = %s" % (k, _cfg_value(v)))
+        for k in (defs or {}):
+            L.append("  %s <- def_%s" % (k, k))
+    if defs:
+        open(path + ".defs", "w").write(json.dumps(defs))
+    elif os.path.exists(path + ".defs"):
+        os.unlink(path + ".defs")
     for i in invariants:
         L.append("INVARIANT " + i)
     for p in properties:
@@ -84,12 +92,26 @@ def run_tlc(module, cfg_path, workers=8, timeout=600, simulate=None, depth=None,
     if coverage:
         cmd += ["-coverage", "1"]
     cmd += list(extra)
-    cmd.append(os.path.join(SPEC, module + ".tla"))
+    cwd = SPEC
+    if os.path.exists(cfg_path + ".defs"):
+        defs = json.load(open(cfg_path + ".defs"))
+        mc = "MC_" + re.sub(r"\W", "_", os.path.basename(cfg_path))
+        with open(os.path.join(meta, mc + ".tla"), "w") as f:
+            f.write("---- MODULE %s ----\nEXTENDS %s\n" % (mc, module))
+            for k, v in defs.items():
+                f.write("def_%s == %s\n" % (k, v))
+            f.write("====\n")
+        jidx = cmd.index("-cp")
+        cmd.insert(jidx, "-DTLA-Library=" + SPEC)
+        cmd.append(os.path.join(meta, mc + ".tla"))
+        cwd = meta
+    else:
+        cmd.append(os.path.join(SPEC, module + ".tla"))
     e = dict(os.environ)
     if env:
         e.update(env)
     t0 = time.time()
-    p = subprocess.run(cmd, capture_output=True, text=True, env=e, cwd=SPEC)
+    p = subprocess.run(cmd, capture_output=True, text=True, env=e, cwd=cwd)
     out = p.stdout + p.stderr
     if not keep:
         shutil.rmtree(meta, ignore_errors=True)
